@@ -116,6 +116,15 @@ theorem ridge_exists_unique_product {q L : ℝ} (hq : 0 < q) (hq2 : q ≤ 2) (hL
     ∃! A : Matrix (Fin k) (Fin c) ℝ, (gram (.product q L) T xs + lam • (1 : Matrix (Fin k) (Fin k) ℝ)) * A = Y := by
   rw [gram_product_eq hq]; exact ridge_exists_unique_lpq hq le_rfl hq2 hL T xs lam hl Y
 
+open Xrfmv.Kernel in
+/-- The sum-power kernel with a natural power (`0 < q ≤ 2`, `0 ≤ c ≤ 1`). -/
+theorem ridge_exists_unique_sumPower {q L c₀ : ℝ} (hq : 0 < q) (hq2 : q ≤ 2) (hL : 0 < L) (hc0 : 0 ≤ c₀)
+    (hc1 : c₀ ≤ 1) (P : ℕ) (T : Transform ℝ) {d k c : ℕ} (xs : Fin k → Fin d → ℝ) (lam : ℝ) (hl : 0 < lam)
+    (Y : Matrix (Fin k) (Fin c) ℝ) :
+    ∃! A : Matrix (Fin k) (Fin c) ℝ,
+      (gram (.sumPower q L c₀ (P : ℝ)) T xs + lam • (1 : Matrix (Fin k) (Fin k) ℝ)) * A = Y :=
+  ridge_exists_unique _ (gram_sumPower_posSemidef hq hq2 hL hc0 hc1 P T xs) lam hl Y
+
 /-- Non-vacuity: the identity Gram matrix (distinct far-apart points) is PSD and `λ = 1e-3 > 0`. -/
 example : (1 : Matrix (Fin 3) (Fin 3) ℝ).PosSemidef ∧ (0 : ℝ) < 1e-3 :=
   ⟨Matrix.PosSemidef.one, by norm_num⟩
